@@ -1,119 +1,159 @@
 ------------------------------- MODULE Notes -------------------------------
 (***************************************************************************)
-(* C14 - note sections and segments yield every note exactly once;          *)
-(* descriptors of the known GNU / core-file note types decode to their      *)
-(* encoded fields; stab records are enumerated exactly.                     *)
+(* C14 - note sections and segments yield every note exactly once;         *)
+(* descriptors of the known GNU / core-file note types decode to their     *)
+(* encoded fields; stab records are enumerated exactly.                    *)
 (*                                                                         *)
 (* Transcribed from:                                                       *)
-(*   System V gABI ch.5 "Note Section" (header of three words, name and     *)
-(*     descriptor each padded to a 4-byte boundary, padding not counted in  *)
-(*     namesz/descsz; "if no name is present, namesz contains 0"), see      *)
+(*   System V gABI ch.5 "Note Section" (header of three words, name and    *)
+(*     descriptor each padded to a 4-byte boundary, padding not counted in *)
+(*     namesz/descsz; "if no name is present, namesz contains 0"), see     *)
 (*     NoteWalk.tla for the arithmetic;                                    *)
 (*   glibc elf.h / abi-tag.h (owner "GNU": NT_GNU_ABI_TAG 1, NT_GNU_HWCAP 2, *)
-(*     NT_GNU_BUILD_ID 3, NT_GNU_GOLD_VERSION 4, NT_GNU_PROPERTY_TYPE_0 5;  *)
+(*     NT_GNU_BUILD_ID 3, NT_GNU_GOLD_VERSION 4, NT_GNU_PROPERTY_TYPE_0 5; *)
 (*     ABI tag = four words os, major, minor, subminor; ELF_NOTE_OS_* 0..3);*)
-(*   Linux ABI draft ("linux-abi", H.J. Lu) ch. "Program Property":         *)
-(*     pr_type word, pr_datasz word, pr_data, pr_padding to 8 bytes in      *)
-(*     ELFCLASS64 and to 4 in ELFCLASS32; GNU_PROPERTY_STACK_SIZE 1 (one    *)
-(*     native word), GNU_PROPERTY_NO_COPY_ON_PROTECTED 2 (no data); x86-64  *)
-(*     psABI: GNU_PROPERTY_X86_FEATURE_1_AND 0xc0000002, _ISA_1_NEEDED      *)
-(*     0xc0008002, _FEATURE_2_USED 0xc0010001, _ISA_1_USED 0xc0010002 (one  *)
-(*     4-byte word each); AArch64 ELF: GNU_PROPERTY_AARCH64_FEATURE_1_AND   *)
+(*   Linux ABI draft ("linux-abi", H.J. Lu) ch. "Program Property":        *)
+(*     pr_type word, pr_datasz word, pr_data, pr_padding to 8 bytes in     *)
+(*     ELFCLASS64 and to 4 in ELFCLASS32; GNU_PROPERTY_STACK_SIZE 1 (one   *)
+(*     native word), GNU_PROPERTY_NO_COPY_ON_PROTECTED 2 (no data); x86-64 *)
+(*     psABI: GNU_PROPERTY_X86_FEATURE_1_AND 0xc0000002, _ISA_1_NEEDED     *)
+(*     0xc0008002, _FEATURE_2_USED 0xc0010001, _ISA_1_USED 0xc0010002 (one *)
+(*     4-byte word each); AArch64 ELF: GNU_PROPERTY_AARCH64_FEATURE_1_AND  *)
 (*     0xc0000000 (one 4-byte word), GNU_PROPERTY_AARCH64_FEATURE_PAUTH    *)
 (*     0xc0000001 (two 64-bit words: platform identifier, version);        *)
 (*     x86-64 psABI GNU_PROPERTY_X86_FEATURE_2_NEEDED 0xc0008001 and       *)
-(*     linux-abi GNU_PROPERTY_1_NEEDED 0xb0008000 (one 4-byte word each);   *)
+(*     linux-abi GNU_PROPERTY_1_NEEDED 0xb0008000 (one 4-byte word each);  *)
 (*     pr_type ranges: 0xc0000000..0xdfffffff processor specific,          *)
 (*     0xe0000000..0xffffffff application specific; a property of a type   *)
 (*     the reader does not know is pr_datasz bytes of data;                *)
-(*   gABI ch.4 e_type: ET_NONE 0, ET_REL 1, ET_EXEC 2, ET_DYN 3, ET_CORE 4, *)
+(*   gABI ch.4 e_type: ET_NONE 0, ET_REL 1, ET_EXEC 2, ET_DYN 3, ET_CORE 4,*)
 (*     ET_LOOS..ET_HIOS 0xfe00..0xfeff, ET_LOPROC..ET_HIPROC 0xff00..0xffff:*)
-(*     only ET_CORE files are core files, every other e_type is "not core"; *)
-(*   Linux include/linux/elfcore.h + fs/binfmt_elf.c (owner "CORE" in       *)
-(*     ET_CORE files: NT_PRSTATUS 1, NT_PRFPREG/NT_FPREGSET 2, NT_PRPSINFO  *)
-(*     3, NT_TASKSTRUCT/NT_PRXREG 4, NT_AUXV 6, NT_SIGINFO 0x53494749,      *)
-(*     NT_FILE 0x46494c45; struct elf_prpsinfo; the NT_FILE layout          *)
-(*     count, page_size, count x (start, end, file_ofs), count strings);    *)
-(*   the stabs documentation (GDB "The stabs debug format", 'Overview'):    *)
-(*     12-byte records n_strx, n_type, n_other, n_desc, n_value.            *)
+(*     only ET_CORE files are core files, every other e_type is "not core";*)
+(*   Linux include/linux/elfcore.h + fs/binfmt_elf.c (owner "CORE" in      *)
+(*     ET_CORE files: NT_PRSTATUS 1, NT_PRFPREG/NT_FPREGSET 2, NT_PRPSINFO *)
+(*     3, NT_TASKSTRUCT/NT_PRXREG 4, NT_AUXV 6, NT_SIGINFO 0x53494749,     *)
+(*     NT_FILE 0x46494c45; struct elf_prpsinfo; the NT_FILE layout         *)
+(*     count, page_size, count x (start, end, file_ofs), count strings);   *)
+(*   the stabs documentation (GDB "The stabs debug format", 'Overview'):   *)
+(*     12-byte records n_strx, n_type, n_other, n_desc, n_value.           *)
 (*                                                                         *)
-(* (A) abstract extent = sequence of notes [name, desc, type] (+ `dec`,     *)
-(*     the abstract descriptor the bytes were produced from) + a tail of    *)
+(* (A) abstract extent = sequence of notes [name, desc, type] (+ `dec`,    *)
+(*     the abstract descriptor the bytes were produced from) + a tail of   *)
 (*     alignment padding shorter than one header;                          *)
-(* (B) writer actions and Enc (EncNote / Extent), wrapped into an ELF image *)
-(*     whose SHT_NOTE section and PT_NOTE segment designate the same bytes; *)
-(* (C) the walker machine [off, end, pc]: ReadHdr / SkipName / SkipDesc /   *)
-(*     Yield / Halt, run over the file bytes first for the section's extent *)
-(*     and then for the segment's extent; the stab walker ReadStab;         *)
-(* (D) the declarative view (NoteView) and the invariants that tie (C) to   *)
-(*     (A): EveryNoteOnce, ExtentConsumed, SectionViewEqualsSegmentView,    *)
-(*     NotesTile, DescRoundTrip, StabsExact, ImageCarriesExtent,            *)
-(*     AlignOnlyInHeaders (mode "align", see below), the action             *)
-(*     properties WalkerProgress (off' >= off + 12 per yielded note) and    *)
-(*     WalkerVariant + the invariant NoStall (termination, safety form),    *)
-(*     and Termination (liveness form under WF on the walker steps; cfg     *)
-(*     Notes_live).  NoteWalkInd.tla restates the progress measure over     *)
-(*     unbounded offsets and sizes as three obligations for Apalache.       *)
+(* (B) writer actions and Enc (EncNote / Extent), wrapped into an ELF image*)
+(*     whose SHT_NOTE section and PT_NOTE segment designate the same bytes;*)
+(* (C) the walker machine [off, end, pc]: ReadHdr / SkipName / SkipDesc /  *)
+(*     Yield / Halt, run over the file bytes first for the section's extent*)
+(*     and then for the segment's extent; the stab walker ReadStab;        *)
+(* (D) the declarative view (NoteView) and the invariants that tie (C) to  *)
+(*     (A): EveryNoteOnce, ExtentConsumed, SectionViewEqualsSegmentView,   *)
+(*     NotesTile, DescRoundTrip, StabsExact, ImageCarriesExtent,           *)
+(*     AlignOnlyInHeaders (mode "align", see below), the action            *)
+(*     properties WalkerProgress (off' >= off + 12 per yielded note) and   *)
+(*     WalkerVariant + the invariant NoStall (termination, safety form),   *)
+(*     and Termination (liveness form under WF on the walker steps; cfg    *)
+(*     Notes_live).  NoteWalkInd.tla restates the progress measure over    *)
+(*     unbounded offsets and sizes as three obligations for Apalache.      *)
 (*                                                                         *)
-(* Not asserted (the standard does not fix it): the symbolic name of a type *)
-(* code whose owner is not the one that defines the code (`fixed` = FALSE:  *)
-(* raw integer or any name some owner gives the code is acceptable); the    *)
-(* decoded form (n_desc) of descriptors the specification has no layout     *)
+(* Not asserted (the standard does not fix it): the symbolic name of a type*)
+(* code whose owner is not the one that defines the code (`fixed` = FALSE: *)
+(* raw integer or any name some owner gives the code is acceptable); the   *)
+(* decoded form (n_desc) of descriptors the specification has no layout    *)
 (* for - except that a note no transcribed standard gives a meaning to     *)
-(* (`opaque`: an owner other than the one that defines the type codes of    *)
-(* this kind of file, or a code the owner "GNU" does not define) can only   *)
-(* be handed out as its descriptor bytes: n_desc = the raw bytes; owner     *)
-(* "FreeBSD" and unnamed codes of owner "CORE" in core files are left out   *)
-(* of that (real layouts exist that are not transcribed here); how an       *)
+(* (`opaque`: an owner other than the one that defines the type codes of   *)
+(* this kind of file, or a code the owner "GNU" does not define) can only  *)
+(* be handed out as its descriptor bytes: n_desc = the raw bytes; owner    *)
+(* "FreeBSD" and unnamed codes of owner "CORE" in core files are left out  *)
+(* of that (real layouts exist that are not transcribed here); how an      *)
 (* absent name (namesz = 0) is rendered; the content of padding            *)
-(* (generated as 0 and as 0xA5, never compared).  In ET_CORE files type 3   *)
-(* and NT_FILE are generated with owner "CORE" only.                        *)
-(* Dimensions added by the strengthening round: e_type (TypeETypes /        *)
-(* DescETypes: the file kind is "core" iff e_type = ET_CORE, so every other *)
-(* e_type must behave like ET_DYN), owner look-alikes x type codes (mode    *)
-(* "types"), property types of the processor range with payloads of 4, 8    *)
-(* and 16 bytes and property types newer than most readers' tables.         *)
-(* Mode "align" (third round): the alignment the headers declare for the    *)
-(* extent - p_align of the PT_NOTE entry and sh_addralign of the SHT_NOTE    *)
+(* (generated as 0 and as 0xA5, never compared).  In ET_CORE files type 3  *)
+(* and NT_FILE are generated with owner "CORE" only.                       *)
+(* Dimensions added by the strengthening round: e_type (TypeETypes /       *)
+(* DescETypes: the file kind is "core" iff e_type = ET_CORE, so every other*)
+(* e_type must behave like ET_DYN), owner look-alikes x type codes (mode   *)
+(* "types"), property types of the processor range with payloads of 4, 8   *)
+(* and 16 bytes and property types newer than most readers' tables.        *)
+(* Mode "align" (third round): the alignment the headers declare for the   *)
+(* extent - p_align of the PT_NOTE entry and sh_addralign of the SHT_NOTE  *)
 (* section over (8, 4), (8, 8), (4, 8), (0, 0), (1, 1), (16, 16) - x extents  *)
-(* of one or two notes whose sizes tell 4-byte from 8-byte padding apart     *)
-(* (header + name = 4 mod 8, descriptor = 4 mod 8, e.g. a 20-byte build id,  *)
-(* followed by a further note), the extent starting at a multiple of 16 in   *)
-(* the file.  The property fixes the 4-byte padding and "section view =      *)
-(* segment view" for every extent: the walker is the same machine, and       *)
-(* AlignOnlyInHeaders shows that the declared alignment changes nothing but  *)
-(* the two header fields.                                                   *)
-(* Fourth round, two more dimensions.                                       *)
-(* (1) Where a decoded descriptor lies in the file.  The linux-abi property  *)
-(* array is a sequence of elements pr_type, pr_datasz, pr_data, pr_padding   *)
-(* whose sizes are multiples of 8 (ELFCLASS64) / 4 (ELFCLASS32): the place   *)
-(* of the next property is the place of this one plus its padded size - a    *)
-(* function of pr_datasz alone, whatever the file offset of the descriptor.  *)
-(* Linkers before the 8-byte .note.gnu.property alignment was settled (and   *)
-(* ld -r / objcopy merging note sections) leave ELFCLASS64 property notes    *)
-(* behind other notes at offsets that are 4 mod 8.  A plain note in front    *)
+(* of one or two notes whose sizes tell 4-byte from 8-byte padding apart   *)
+(* (header + name = 4 mod 8, descriptor = 4 mod 8, e.g. a 20-byte build id,*)
+(* followed by a further note), the extent starting at a multiple of 16 in *)
+(* the file.  The property fixes the 4-byte padding and "section view =    *)
+(* segment view" for every extent: the walker is the same machine, and     *)
+(* AlignOnlyInHeaders shows that the declared alignment changes nothing but*)
+(* the two header fields.                                                  *)
+(* Fourth round, two more dimensions.                                      *)
+(* (1) Where a decoded descriptor lies in the file.  The linux-abi property*)
+(* array is a sequence of elements pr_type, pr_datasz, pr_data, pr_padding *)
+(* whose sizes are multiples of 8 (ELFCLASS64) / 4 (ELFCLASS32): the place *)
+(* of the next property is the place of this one plus its padded size - a  *)
+(* function of pr_datasz alone, whatever the file offset of the descriptor.*)
+(* Linkers before the 8-byte .note.gnu.property alignment was settled (and *)
+(* ld -r / objcopy merging note sections) leave ELFCLASS64 property notes  *)
+(* behind other notes at offsets that are 4 mod 8.  A plain note in front  *)
 (* (Leads, now also in the quick tier: sizes 20 and 36 - the build-id size -, *)
-(* both 4 mod 8) moves the descriptor of the decoded note there; the rival   *)
+(* both 4 mod 8) moves the descriptor of the decoded note there; the rival *)
 (* reading "every property starts at a file offset that is a multiple of the *)
-(* alignment" (PropWalkAbs) is shown to differ on those cases (`propabs` in  *)
-(* the emitted case, counted by the driver), and PropsRelative states that   *)
-(* the walk relative to the descriptor recovers the abstract list at every   *)
-(* descriptor offset while both readings coincide on aligned descriptors.    *)
-(* (2) Units of a stab section (GDB stabs, "Stab Section Basics"): the       *)
-(* first stab of each compilation unit is synthetic: n_type N_UNDF (0),      *)
-(* n_other 0, n_desc = the count of stabs that follow in this unit, n_value  *)
-(* = the size of the unit's string table fragment, n_strx = offset of the    *)
-(* file name.  A section holds one unit per object file that went into the   *)
-(* link (ld -r, concatenated objects), so a header's count covers its own    *)
-(* unit only and says nothing about where the section ends: "enumerated      *)
-(* exactly" = every 12-byte record up to sh_size, headers included.  The     *)
-(* writer opens units (AddUndf), the counts are derived (StabRecs), and       *)
+(* alignment" (PropWalkAbs) is shown to differ on those cases (`propabs` in*)
+(* the emitted case, counted by the driver), and PropsRelative states that *)
+(* the walk relative to the descriptor recovers the abstract list at every *)
+(* descriptor offset while both readings coincide on aligned descriptors.  *)
+(* (2) Units of a stab section (GDB stabs, "Stab Section Basics"): the     *)
+(* first stab of each compilation unit is synthetic: n_type N_UNDF (0),    *)
+(* n_other 0, n_desc = the count of stabs that follow in this unit, n_value*)
+(* = the size of the unit's string table fragment, n_strx = offset of the  *)
+(* file name.  A section holds one unit per object file that went into the *)
+(* link (ld -r, concatenated objects), so a header's count covers its own  *)
+(* unit only and says nothing about where the section ends: "enumerated    *)
+(* exactly" = every 12-byte record up to sh_size, headers included.  The   *)
+(* writer opens units (AddUndf), the counts are derived (StabRecs), and    *)
 (* UnitsTile states that the units tile the section from the first header on *)
-(* while the reader (ReadStab) still yields Len(stabs) records.              *)
+(* while the reader (ReadStab) still yields Len(stabs) records.            *)
+(* Fifth round: the name field.  gABI ch.5: "namesz, name: the first namesz*)
+(* bytes in name contain a null-terminated character representation of the *)
+(* entry's owner or originator".  The owner is therefore the string that   *)
+(* ends at the FIRST null of the name field (OwnerStr), namesz is the size *)
+(* of the field, and nothing says that the field holds one null only:      *)
+(* producers exist whose namesz covers several (the Go toolchain's         *)
+(* "Go\0\0" with namesz 4, owners filled up to 8 bytes inside namesz).  The*)
+(* meaning of a note (which table names its type code, which layout its    *)
+(* descriptor has) is a function of the owner STRING, not of the bytes of  *)
+(* the field: DescKind / TypeFixed / StrictNames / Opaque go through       *)
+(* OwnerStr.  Mode "owners": one note out of OwnedPool - owners "", "a",   *)
+(* "ab", "GNU", "CORE", "FreeBSD", the look-alikes of "GNU" x type codes,  *)
+(* and the decoded descriptors (ABI tag, build id, property lists; process *)
+(* information and file map in ET_CORE) - whose name field carries 0..5    *)
+(* further nulls inside namesz (ExtraNuls: every residue of namesz mod 4 for *)
+(* every owner), alone or followed by a plain note whose name field is     *)
+(* padded as well.  Sizes and offsets count from namesz as before (NoteSize*)
+(* is untouched): OwnerUpToFirstNul states that the walker's owner is the  *)
+(* prefix of the field before its first null, that only nulls follow it    *)
+(* inside namesz (the writer's alphabet), that the rival reading "the owner*)
+(* is the first namesz - 1 bytes" (NameSliced) differs exactly on the fields *)
+(* with further nulls (`namealt` in the emitted case, counted by the       *)
+(* driver), and that the meaning of the note is that of the canonical field*)
+(* owner + one null.  Not generated: a null followed by non-null bytes     *)
+(* inside namesz (namesz is to count the terminator of the name: such a    *)
+(* field is not a well-formed input and no standard says what its owner is), *)
+(* and a field without any null.                                           *)
+(* Mode "multi": several note sections in one segment.  Link editors place *)
+(* the SHT_NOTE sections of equal alignment next to one another and cover  *)
+(* them with one PT_NOTE entry (.note.gnu.build-id + .note.ABI-tag): the   *)
+(* "same bytes" of the property are then the bytes of two sections on one  *)
+(* side and of one segment on the other.  The writer fills the first       *)
+(* section (role "s1") and then the second ("s2"), either may stay empty;  *)
+(* the walker runs over the first section, the second section and the      *)
+(* segment (phases "sec", "sec2", "seg"); SectionsSplitSegment: each       *)
+(* section yields its own notes and halts at its own end - which is where  *)
+(* the next one begins, so that a further header would fit -, the segment  *)
+(* yields the notes of both at the same offsets.                           *)
+(* File maps (NT_FILE) also with 5 mappings (one file mapped twice) and the*)
+(* units of file_ofs 1, 16 KiB and 64 KiB (NtFileMore).                    *)
 (***************************************************************************)
 EXTENDS Elf, NoteWalk, Json, CSV, IOUtils
 
-CONSTANTS Modes,       \* subset of {"walk", "types", "desc", "stabs", "align"}
+CONSTANTS Modes,       \* subset of {"walk", "types", "desc", "stabs", "align", "owners", "multi"}
           WalkCf,      \* file configurations of the size sweep
           Sizes,       \* namesz / descsz of the last note of an extent
           FirstSizes,  \* namesz / descsz of the notes before the last one
@@ -156,6 +196,11 @@ DescCf == UNION {{CfE(c[1], c[2], et, m, pad) : m \in DescMachines(c[1], c[2]), 
 StabCf == {Cf(c[1], c[2], FALSE, DefMachine(c[1], c[2]), 0) : c \in ClsLe}
 AllModes == {"walk", "types", "desc", "stabs"}
 AllModesAlign == AllModes \cup {"align"}
+AllModesOwners == AllModesAlign \cup {"owners"}
+AllModesMulti == AllModesOwners \cup {"multi"}
+OwnersOnly == {"owners", "multi"}
+\* mode "owners": each class / byte order x ET_DYN / ET_CORE (the owner that defines the type codes differs), padding bytes as in mode "desc"
+OwnersCf == {CfE(c[1], c[2], et, DefMachine(c[1], c[2]), pad) : c \in ClsLe, et \in ETypesBase, pad \in DescPads}
 \* mode "align": <<p_align, sh_addralign>>; the gap puts the extent at a multiple of 16 (ELF32: 52 + 32 + 12, ELF64: 64 + 56 + 8)
 AlignPairs == {<<8, 4>>, <<8, 8>>, <<4, 8>>, <<0, 0>>, <<1, 1>>, <<16, 16>>}
 AlignCf == {[c EXCEPT !.palign = a[1], !.salign = a[2], !.gap = IF c.cls = 32 THEN 12 ELSE 8] : c \in WalkCf, a \in AlignPairs}
@@ -209,6 +254,15 @@ Owner(ns) == CASE ns = 0 -> <<>>
 OwnerGnuLower == <<103, 110, 117, 0>>          \* "gnu\0"
 OwnerGNUX == <<71, 78, 85, 88, 0>>             \* "GNUX\0"
 OwnerXGNU == <<88, 71, 78, 85, 0>>             \* "XGNU\0"
+\* gABI ch.5: the first namesz bytes of the name field "contain a null-terminated character representation of the entry's owner":
+\* the owner is the string that ends at the first null of the field (no field: no owner)
+OwnerStr(field) == IF field = <<>> THEN <<>> ELSE CStrAt(field, 0).s
+\* is the owner of the note with this name field the owner whose canonical field (string + one null) is `canon`?
+OwnedBy(field, canon) == field # <<>> /\ OwnerStr(field) = OwnerStr(canon)
+\* the field with k further nulls inside namesz
+PadField(field, k) == field \o Rep(0, k)
+\* the rival reading: the owner is whatever precedes the last byte of the field
+NameSliced(field) == IF field = <<>> THEN <<>> ELSE SubSeq(field, 1, Len(field) - 1)
 TOwner(o) == CASE o = 101 -> OwnerGnuLower [] o = 102 -> OwnerGNUX [] o = 103 -> OwnerXGNU [] OTHER -> Owner(o)
 DescBytes(i, ds) == [j \in 1..ds |-> 128 + 16 * i + j]
 
@@ -232,23 +286,23 @@ MachClass(m) == IF m \in {3, 62} THEN "x86" ELSE IF m = 183 THEN "aarch64" ELSE 
 PropNames(t, m) == {PropTab[i][2] : i \in {j \in 1..Len(PropTab) : PropTab[j][1] = t /\ PropTab[j][3] \in {"any", MachClass(m)}}}
 
 \* the owner that defines the meaning of the type codes in this kind of file
-TypeFixed(name, core) == (name = OwnerGNU /\ ~core) \/ (name = OwnerCORE /\ core)
-StrictNames(name, t, core) == IF name = OwnerGNU /\ ~core THEN NamesIn(GnuTypes, t)
-                              ELSE IF name = OwnerCORE /\ core THEN NamesIn(CoreTypes, t) ELSE {}
+TypeFixed(name, core) == (OwnedBy(name, OwnerGNU) /\ ~core) \/ (OwnedBy(name, OwnerCORE) /\ core)
+StrictNames(name, t, core) == IF OwnedBy(name, OwnerGNU) /\ ~core THEN NamesIn(GnuTypes, t)
+                              ELSE IF OwnedBy(name, OwnerCORE) /\ core THEN NamesIn(CoreTypes, t) ELSE {}
 AnyNames(t) == NamesIn(GnuTypes, t) \cup NamesIn(CoreTypes, t)
 \* which descriptor layout the standards give a note
 DescKind(name, t, core) ==
-  IF name = OwnerGNU /\ ~core
+  IF OwnedBy(name, OwnerGNU) /\ ~core
   THEN CASE t = T4(1, 0, 0, 0) -> "abi" [] t = T4(3, 0, 0, 0) -> "buildid" [] t = T4(4, 0, 0, 0) -> "gold"
          [] t = T4(5, 0, 0, 0) -> "props" [] OTHER -> "raw"
-  ELSE IF name = OwnerCORE /\ core
+  ELSE IF OwnedBy(name, OwnerCORE) /\ core
   THEN CASE t = T4(3, 0, 0, 0) -> "prpsinfo" [] t = NT_FILE -> "ntfile" [] OTHER -> "raw"
   ELSE "raw"
 \* no transcribed standard gives the note a meaning: a reader can only hand out the descriptor bytes.  Left out: owner
 \* "FreeBSD" and the unnamed codes of "CORE" in core files (real layouts exist that are not transcribed here)
 Opaque(name, t, core) ==
   /\ DescKind(name, t, core) = "raw"
-  /\ IF TypeFixed(name, core) THEN name = OwnerGNU /\ NamesIn(GnuTypes, t) = {} ELSE name # OwnerFreeBSD
+  /\ IF TypeFixed(name, core) THEN OwnedBy(name, OwnerGNU) /\ NamesIn(GnuTypes, t) = {} ELSE ~OwnedBy(name, OwnerFreeBSD)
 
 \* dec = [k: layout, f: the abstract descriptor fields, nm: naming/representation hints for the view]
 Note(name, desc, t, dec) == [name |-> name, desc |-> desc, type |-> t, dec |-> dec, role |-> "desc"]
@@ -354,10 +408,13 @@ PrpsNote(v, c) == LET rec == PrpsRec(v, c) IN
 
 \* file map
 Addr(cls, i, e) == IF cls = 32 THEN W(<<0, 16 * (i + e), 4, 247>>) ELSE W(<<0, 16 * (i + e), 4, 247, 255, 127, 0, 128>>)
-FileName(i) == IF i = 1 THEN <<47, 108, 105, 98, 47, 120>> ELSE <<47, 121>>                  \* "/lib/x", "/y"
-NtFileRec(n, c) ==
+\* "/lib/x", "/y", then names of growing length; the fifth mapping is of the first file again
+FileName(i) == CASE i \in {1, 5} -> <<47, 108, 105, 98, 47, 120>> [] i = 2 -> <<47, 121>> [] OTHER -> <<47>> \o [j \in 1..(i - 2) |-> 96 + i + j]
+\* (fs/binfmt_elf.c fill_files_note: the second word is the unit of file_ofs: PAGE_SIZE of the dumping kernel - 4 KiB, 16 KiB, 64 KiB -
+\* and 1 in kernels that count file_ofs in bytes)
+NtFileRecP(n, pg, c) ==
   LET wz == c.cls \div 8 IN
-  [count |-> U(N(n), wz), page_size |-> U(N(4096), wz),
+  [count |-> U(N(n), wz), page_size |-> U(N(pg), wz),
    entries |-> [i \in 1..n |-> [vm_start |-> Addr(c.cls, i, 0), vm_end |-> Addr(c.cls, i, 1), page_offset |-> U(N(i - 1), wz)]],
    names |-> [i \in 1..n |-> FileName(i)]]
 EncNtFile(r, c) ==
@@ -366,7 +423,10 @@ EncNtFile(r, c) ==
   \o Flat([i \in 1..Len(r.entries) |-> Fix(r.entries[i].vm_start, wz, c.le) \o Fix(r.entries[i].vm_end, wz, c.le)
                                         \o Fix(r.entries[i].page_offset, wz, c.le)])
   \o Flat([i \in 1..Len(r.names) |-> r.names[i] \o <<0>>])
-NtFileNote(n, c) == LET r == NtFileRec(n, c) IN Note(OwnerCORE, EncNtFile(r, c), NT_FILE, [k |-> "ntfile", f |-> r, nm |-> <<>>])
+NtFileNoteP(n, pg, c) == LET r == NtFileRecP(n, pg, c) IN Note(OwnerCORE, EncNtFile(r, c), NT_FILE, [k |-> "ntfile", f |-> r, nm |-> <<>>])
+NtFileNote(n, c) == NtFileNoteP(n, 4096, c)
+\* <<count, page size>> beyond the three lists of 0..2 mappings with 4 KiB pages
+NtFileMore == {<<1, 1>>, <<2, 65536>>, <<5, 16384>>}
 
 (* ------------------------------ encoding -------------------------------- *)
 PadTo4(bs, pad) == bs \o Rep(pad, Pad4(Len(bs)) - Len(bs))
@@ -387,6 +447,15 @@ NoteIm(c, data) ==
                          \* (Linux core dumps carry p_memsz = 0 in PT_NOTE: the file size alone delimits the notes)
                          !.segs = <<Seg(N(4), N(4), Z, N(4096), N(4096), n, IF c.core THEN Z ELSE n, N(c.palign))>>]
   IN [im0 EXCEPT !.segs[1].offset = N(SecOff(im0, 1))]
+\* mode "multi": two adjacent SHT_NOTE sections and one PT_NOTE segment over the bytes of both
+DotNoteY == <<46, 110, 111, 116, 101, 46, 121>>                      \* ".note.y"
+NoteIm2(c, d1, d2) ==
+  LET n == N(Len(d1) + Len(d2))
+      im0 == [Im0 EXCEPT !.cls = c.cls, !.le = c.le, !.machine = c.machine, !.etype = N(c.et), !.gap = c.gap,
+                         !.secs = <<Sec(DotNoteX, N(7), N(2), N(4096), d1, N(Len(d1)), Z, Z, N(c.salign), Z),
+                                    Sec(DotNoteY, N(7), N(2), N(4096 + Len(d1)), d2, N(Len(d2)), Z, Z, N(c.salign), Z)>>,
+                         !.segs = <<Seg(N(4), N(4), Z, N(4096), N(4096), n, IF c.core THEN Z ELSE n, N(c.palign))>>]
+  IN [im0 EXCEPT !.segs[1].offset = N(SecOff(im0, 1))]
 StabIm(c, data) ==
   [Im0 EXCEPT !.cls = c.cls, !.le = c.le, !.machine = c.machine, !.etype = N(1),
               !.secs = <<Sec(DotStab, N(1), Z, Z, data, N(Len(data)), Z, Z, N(4), N(StabSize))>>]
@@ -401,10 +470,11 @@ Le4(bs, le) == NatOf(IF le THEN bs ELSE Rev(bs))
 (* ------------------------------- writer --------------------------------- *)
 NoCur == [off |-> 0, namesz |-> 0, descsz |-> 0, type |-> <<0, 0, 0, 0>>, name |-> <<>>, desc |-> <<>>]
 W0 == [who |-> "none", off |-> 0, end |-> 0, pc |-> "halt", cur |-> NoCur]
-Outs0 == [sec |-> <<>>, seg |-> <<>>, secoff |-> 0, segoff |-> 0]
-Ext0 == [secstart |-> 0, secend |-> 0, segstart |-> 0, segend |-> 0, tail |-> 0]
+Outs0 == [sec |-> <<>>, sec2 |-> <<>>, seg |-> <<>>, secoff |-> 0, sec2off |-> 0, segoff |-> 0]
+Ext0 == [secstart |-> 0, secend |-> 0, sec2start |-> 0, sec2end |-> 0, segstart |-> 0, segend |-> 0, tail |-> 0]
 
 CfOf(m) == CASE m = "walk" -> WalkCf [] m = "types" -> TypesCf [] m = "desc" -> DescCf [] m = "stabs" -> StabCf [] m = "align" -> AlignCf
+            [] m = "owners" -> OwnersCf [] m = "multi" -> WalkCf
 Init ==
   /\ Mode \in Modes
   /\ cf \in CfOf(Mode)
@@ -452,6 +522,7 @@ AddBuildId(n) == ~cf.core /\ AddDescNote(BuildIdNote(n))
 AddGold == ~cf.core /\ AddDescNote(GoldNote)
 AddPrps(v) == cf.core /\ AddDescNote(PrpsNote(v, cf))
 AddNtFile(n) == cf.core /\ AddDescNote(NtFileNote(n, cf))
+AddNtFileP(np) == cf.core /\ BaseEt(cf) /\ AddDescNote(NtFileNoteP(np[1], np[2], cf))
 AddProp(kind) ==
   /\ phase = "write" /\ Mode = "desc" /\ ~cf.core /\ Len(props) < (IF BaseEt(cf) THEN MaxProps ELSE Min({MaxProps, EtMaxProps}))
   /\ OnlyLead
@@ -467,6 +538,45 @@ AddFollow(sz) ==
   /\ phase = "write" /\ Mode = "desc" /\ BaseEt(cf) /\ props = <<>> /\ DescDone /\ notes[Len(notes)].role # "follow"
   /\ (LeadScope = "props" => notes[1].role # "lead")
   /\ notes' = Append(notes, Plain(Len(notes) + 1, sz, "follow"))
+  /\ UNCHANGED <<props, stabs>> /\ Keep
+
+\* mode "owners": [a note of OwnedPool whose name field carries k further nulls] [a plain note, its field padded as well]
+ExtraNuls == 0..5
+FollowNuls == {3}                       \* owner "ab", namesz 3 + 3 = 6
+FollowNulsAll == {0, 3}
+OwnedOwners == {1, 2, 3, 4, 5, 8, 101, 102, 103}       \* "", "a", "ab", "GNU", "CORE", "FreeBSD", "gnu", "GNUX", "XGNU"
+OwnedTypesQuick == {T4(3, 0, 0, 0), T4(4, 0, 0, 0), T4(0, 1, 0, 0)}
+OwnedTypesThorough == {T4(0, 0, 0, 0), T4(2, 0, 0, 0), T4(3, 0, 0, 0), T4(4, 0, 0, 0), T4(6, 0, 0, 0), T4(0, 1, 0, 0), NT_SIGINFO,
+                       T4(255, 255, 255, 255)}
+OwnedTypes == OwnedTypesQuick           \* (the thorough tier: `OwnedTypes <- OwnedTypesThorough`)
+OwnedPlain(c) == {PlainNote(TOwner(o), DescBytes(1, 5), t, c.core) :
+                    o \in OwnedOwners, t \in {u \in OwnedTypes : ~(c.core /\ u \in {T4(3, 0, 0, 0), NT_FILE})}}
+OwnedDecoded(c) == IF c.core THEN {PrpsNote(1, c), NtFileNote(0, c), NtFileNote(2, c)}
+                   ELSE {AbiNote(0, c), AbiNote(77, c), BuildIdNote(20), GoldNote,
+                         PropsNote(<<PropOf("stack", c)>>, c), PropsNote(<<PropOf("unk1", c), PropOf("nocopy", c), PropOf("user", c)>>, c)}
+OwnedPool(c) == {n \in OwnedPlain(c) : n.dec.k = DescKind(n.name, n.type, c.core)} \cup OwnedDecoded(c)
+PadName(n, k) == [n EXCEPT !.name = PadField(@, k)]
+AddOwned(n, k) ==
+  /\ phase = "write" /\ Mode = "owners" /\ notes = <<>>
+  /\ notes' = <<PadName(n, k)>>
+  /\ UNCHANGED <<props, stabs>> /\ Keep
+AddOwnedFollow(k) ==
+  /\ phase = "write" /\ Mode = "owners" /\ Len(notes) = 1
+  /\ notes' = Append(notes, PadName(Plain(2, <<3, 1>>, "follow"), k))
+  /\ UNCHANGED <<props, stabs>> /\ Keep
+
+\* mode "multi": the notes of the first section (role "s1"), then those of the second (role "s2")
+MultiNames == {0, 4, 5}                 \* no owner, "GNU", "CORE"
+MultiDescs == {0, 3, 5}
+MultiMaxQuick == 2
+MultiMax == MultiMaxQuick               \* (the thorough tier: `MultiMax <- MultiMaxThorough`)
+MultiMaxThorough == 3
+InFirst(n) == n.role = "s1"
+SplitAt == Cardinality({i \in 1..Len(notes) : InFirst(notes[i])})
+AddMulti(ns, ds, r) ==
+  /\ phase = "write" /\ Mode = "multi" /\ Len(notes) < MultiMax
+  /\ (r = "s1" => \A i \in 1..Len(notes) : InFirst(notes[i]))
+  /\ notes' = Append(notes, [RawNote(Len(notes) + 1, ns, ds, cf) EXCEPT !.role = r])
   /\ UNCHANGED <<props, stabs>> /\ Keep
 
 StabVal(v) == CASE v = 1 -> [n_strx |-> N(1), n_type |-> N(100), n_other |-> N(0), n_desc |-> N(0), n_value |-> N(0)]
@@ -494,9 +604,9 @@ UnitHeads(ss) == {i \in 1..Len(ss) : IsUndf(ss[i])}
 
 StartW(who, from, to) == [who |-> who, off |-> from, end |-> to, pc |-> "hdr", cur |-> NoCur]
 Finish(tail) ==
-  /\ phase = "write" /\ Mode # "stabs" /\ props = <<>>
+  /\ phase = "write" /\ Mode \notin {"stabs", "multi"} /\ props = <<>>
   /\ (Mode = "types" => Len(notes) = 1) /\ (Mode = "desc" => DescDone)
-  /\ (Mode = "align" => notes # <<>>)
+  /\ (Mode \in {"align", "owners"} => notes # <<>>)
   /\ tail \in Tails /\ tail < NhdrSize /\ (tail # 0 => Mode \in {"walk", "align"} /\ Len(notes) <= TailNotes)
   \* (mode "align": the only trailing padding is the one that fills the extent up to 8 bytes)
   /\ (tail # 0 /\ Mode = "align" => tail = 4 /\ (Len(EncNotes(notes, cf)) % 8) = 4)
@@ -505,8 +615,21 @@ Finish(tail) ==
          so == SecOff(im, 1)
          g == im.segs[1]
      IN /\ cs' = Chunks(im)
-        /\ ext' = [secstart |-> so, secend |-> so + im.secs[1].size.n, segstart |-> g.offset.n, segend |-> g.offset.n + g.filesz.n, tail |-> tail]
+        /\ ext' = [Ext0 EXCEPT !.secstart = so, !.secend = so + im.secs[1].size.n, !.segstart = g.offset.n, !.segend = g.offset.n + g.filesz.n,
+                                !.tail = tail]
         /\ w' = StartW("sec", so, so + im.secs[1].size.n)
+  /\ phase' = "sec"
+  /\ UNCHANGED <<Mode, cf, notes, props, stabs, outs>>
+FinishMulti ==
+  /\ phase = "write" /\ Mode = "multi"
+  /\ LET k == SplitAt
+         im == NoteIm2(cf, EncNotes(SubSeq(notes, 1, k), cf), EncNotes(SubSeq(notes, k + 1, Len(notes)), cf))
+         s1 == SecOff(im, 1)   s2 == SecOff(im, 2)
+         g == im.segs[1]
+     IN /\ cs' = Chunks(im)
+        /\ ext' = [Ext0 EXCEPT !.secstart = s1, !.secend = s1 + im.secs[1].size.n, !.sec2start = s2, !.sec2end = s2 + im.secs[2].size.n,
+                                !.segstart = g.offset.n, !.segend = g.offset.n + g.filesz.n]
+        /\ w' = StartW("sec", s1, s1 + im.secs[1].size.n)
   /\ phase' = "sec"
   /\ UNCHANGED <<Mode, cf, notes, props, stabs, outs>>
 FinishStabs ==
@@ -515,14 +638,14 @@ FinishStabs ==
          im == StabIm(cf, data)
          so == SecOff(im, 1)
      IN /\ cs' = Chunks(im)
-        /\ ext' = [secstart |-> so, secend |-> so + Len(data), segstart |-> 0, segend |-> 0, tail |-> 0]
+        /\ ext' = [Ext0 EXCEPT !.secstart = so, !.secend = so + Len(data)]
         /\ w' = StartW("stab", so, so + Len(data))
   /\ phase' = "stab"
   /\ UNCHANGED <<Mode, cf, notes, props, stabs, outs>>
 
 (* ---------------------------- the walker -------------------------------- *)
 \* (gABI ch.5: entries follow one another; each is a header, the name padded to 4, the descriptor padded to 4)
-Walking == phase \in {"sec", "seg"}
+Walking == phase \in {"sec", "sec2", "seg"}
 KeepW == UNCHANGED <<Mode, cf, notes, props, stabs, cs, ext>>
 ReadHdr ==
   /\ Walking /\ w.pc = "hdr" /\ HdrFits(w.off, w.end)
@@ -539,7 +662,7 @@ SkipDesc ==
   /\ Walking /\ w.pc = "desc"
   /\ w' = [w EXCEPT !.pc = "yield", !.off = w.off + Pad4(w.cur.descsz), !.cur.desc = Read(cs, w.off, w.cur.descsz)]
   /\ UNCHANGED <<phase, outs>> /\ KeepW
-NameOf(bytes) == IF bytes = <<>> THEN <<>> ELSE CStrAt(bytes, 0).s
+NameOf(bytes) == OwnerStr(bytes)
 Yielded(c, off) == [off |-> c.off, size |-> off - c.off, namesz |-> c.namesz, descsz |-> c.descsz, type |-> c.type,
                     hasname |-> c.namesz # 0, name |-> NameOf(c.name), desc |-> c.desc]
 Yield ==
@@ -549,7 +672,11 @@ Yield ==
   /\ UNCHANGED phase /\ KeepW
 Halt ==
   /\ Walking /\ w.pc = "hdr" /\ ~HdrFits(w.off, w.end)
-  /\ IF phase = "sec"
+  /\ IF phase = "sec" /\ Mode = "multi"
+     THEN phase' = "sec2" /\ w' = StartW("sec2", ext.sec2start, ext.sec2end) /\ outs' = [outs EXCEPT !.secoff = w.off]
+     ELSE IF phase = "sec2"
+     THEN phase' = "seg" /\ w' = StartW("seg", ext.segstart, ext.segend) /\ outs' = [outs EXCEPT !.sec2off = w.off]
+     ELSE IF phase = "sec"
      THEN phase' = "seg" /\ w' = StartW("seg", ext.segstart, ext.segend) /\ outs' = [outs EXCEPT !.secoff = w.off]
      ELSE phase' = "done" /\ w' = [w EXCEPT !.pc = "halt"] /\ outs' = [outs EXCEPT !.segoff = w.off]
   /\ KeepW
@@ -576,9 +703,14 @@ Next ==
   \/ AddGold
   \/ \E v \in {1, 2} : AddPrps(v)
   \/ \E n \in {0, 1, 2} : AddNtFile(n)
+  \/ \E np \in NtFileMore : AddNtFileP(np)
   \/ \E k \in AllProps : AddProp(k)
   \/ CloseProps
   \/ \E sz \in Follows : AddFollow(sz)
+  \/ (Mode = "owners" /\ \E n \in OwnedPool(cf), k \in ExtraNuls : AddOwned(n, k))
+  \/ \E k \in FollowNuls : AddOwnedFollow(k)
+  \/ \E ns \in MultiNames, ds \in MultiDescs, r \in {"s1", "s2"} : AddMulti(ns, ds, r)
+  \/ FinishMulti
   \/ \E v \in {1, 2, 3} : AddStab(v)
   \/ AddUndf
   \/ \E t \in Tails : Finish(t)
@@ -638,10 +770,14 @@ DecodeDesc(k, bs, c) ==
 BareFinal == notes # <<>> /\ notes[Len(notes)].name = <<>> /\ notes[Len(notes)].desc = <<>> /\ ext.tail = 0
 \* does the reading "properties start at aligned file offsets" walk some property list of this extent differently?
 PropAbsDiffers == LET vs == CoreViews(ext.secstart) IN \E i \in 1..Len(notes) : PropAbsDiffersAt(notes[i], vs[i])
+\* does the reading "the owner is the first namesz - 1 bytes of the field" name some note of this extent differently?
+NameAltDiffers == \E i \in 1..Len(notes) : NameSliced(notes[i].name) # OwnerStr(notes[i].name)
 StabUnits == Cardinality(UnitHeads(stabs))
 \* ("stabs/units": some header's unit ends before the section does, i.e. a further header follows)
 Tag == IF Mode = "stabs" THEN (IF StabUnits >= 2 THEN "stabs/units" ELSE "stabs")
        ELSE IF Mode = "desc" /\ PropAbsDiffers THEN "desc/props-off-alignment"
+       ELSE IF Mode = "owners" THEN (IF NameAltDiffers THEN "owners/nulls-inside-namesz" ELSE "owners")
+       ELSE IF Mode = "multi" THEN "multi/" \o ToString(SplitAt) \o "+" \o ToString(Len(notes) - SplitAt)
        ELSE IF Mode = "align" THEN "align/p_align=" \o ToString(cf.palign) \o "/sh_addralign=" \o ToString(cf.salign)
        ELSE IF BareFinal THEN "bare-final" ELSE Mode
 \* does the 8-byte reading walk this extent differently (another place for some note, or for the end)?
@@ -655,9 +791,14 @@ Tables == [gnu |-> [i \in 1..Len(GnuTypes) |-> <<GnuTypes[i][1].d, GnuTypes[i][2
 Case == IF Mode = "stabs"
         THEN [mode |-> Mode, tag |-> Tag, cls |-> cf.cls, le |-> cf.le, chunks |-> cs, sec |-> 1, stabs |-> StabView(ext.secstart),
               units |-> StabUnits]
+        ELSE IF Mode = "multi"
+        THEN [mode |-> Mode, tag |-> Tag, cls |-> cf.cls, le |-> cf.le, core |-> cf.core, etype |-> cf.et, machine |-> cf.machine, chunks |-> cs,
+              sec |-> 1, sec2 |-> 2, seg |-> 0, ext |-> <<ext.secstart, ext.secend>>, ext2 |-> <<ext.sec2start, ext.sec2end>>,
+              segext |-> <<ext.segstart, ext.segend>>, split |-> SplitAt, notes |-> NotesView(ext.secstart),
+              palign |-> cf.palign, salign |-> cf.salign, alt8 |-> Alt8Differs, propabs |-> PropAbsDiffers, namealt |-> NameAltDiffers]
         ELSE [mode |-> Mode, tag |-> Tag, cls |-> cf.cls, le |-> cf.le, core |-> cf.core, etype |-> cf.et, machine |-> cf.machine, chunks |-> cs,
               sec |-> 1, seg |-> 0, ext |-> <<ext.secstart, ext.secend>>, notes |-> NotesView(ext.secstart),
-              palign |-> cf.palign, salign |-> cf.salign, alt8 |-> Alt8Differs, propabs |-> PropAbsDiffers]
+              palign |-> cf.palign, salign |-> cf.salign, alt8 |-> Alt8Differs, propabs |-> PropAbsDiffers, namealt |-> NameAltDiffers]
 Emit == /\ (phase = "done" => CSVWrite("%1$s", <<ToJson(Case)>>, IOEnv.OUT))
         /\ (phase = "write" /\ notes = <<>> /\ props = <<>> /\ stabs = <<>> /\ cf.cls = 32 /\ cf.le =>
               CSVWrite("%1$s", <<ToJson([tables |-> Tables])>>, IOEnv.OUT))
@@ -666,31 +807,60 @@ Emit == /\ (phase = "done" => CSVWrite("%1$s", <<ToJson(Case)>>, IOEnv.OUT))
 Done == phase = "done"
 NotesMode == Mode # "stabs"
 \* the walker yields exactly the encoded notes, in order, each once
-EveryNoteOnce == Done /\ NotesMode => outs.sec = CoreViews(ext.secstart)
+\* (what the section walks yielded, in file order: one section, or the two of mode "multi")
+SecOuts == outs.sec \o outs.sec2
+ExtEnd == IF Mode = "multi" THEN ext.sec2end ELSE ext.secend
+LastSecOff == IF Mode = "multi" THEN outs.sec2off ELSE outs.secoff
+EveryNoteOnce == Done /\ NotesMode => SecOuts = CoreViews(ext.secstart)
 \* ... and stops at the end of the last note, with less than one header of padding left
 ExtentConsumed ==
-  Done /\ NotesMode => /\ outs.secoff = ext.secstart + Len(EncNotes(notes, cf))
-                       /\ ext.secend - outs.secoff = ext.tail /\ ext.tail < NhdrSize
-                       /\ outs.segoff = outs.secoff
-SectionViewEqualsSegmentView == Done /\ NotesMode => outs.seg = outs.sec
+  Done /\ NotesMode => /\ LastSecOff = ext.secstart + Len(EncNotes(notes, cf))
+                       /\ ExtEnd - LastSecOff = ext.tail /\ ext.tail < NhdrSize
+                       /\ outs.segoff = LastSecOff
+SectionViewEqualsSegmentView == Done /\ NotesMode => outs.seg = SecOuts
+\* several note sections in one segment: each section yields its own notes and stops at its own end (where the next one begins),
+\* the segment yields those of all of them, at the same offsets
+SectionsSplitSegment ==
+  Done /\ Mode = "multi" =>
+      LET vs == CoreViews(ext.secstart)   k == SplitAt IN
+      /\ outs.sec = SubSeq(vs, 1, k) /\ outs.sec2 = SubSeq(vs, k + 1, Len(vs)) /\ outs.seg = vs
+      /\ outs.secoff = ext.secend /\ ext.secend = ext.sec2start /\ outs.sec2off = ext.sec2end
+      /\ ext.segstart = ext.secstart /\ ext.segend = ext.sec2end /\ outs.segoff = ext.segend
 \* yielded notes tile the extent: each is at least a header long and starts where the previous one ended
 NotesTile ==
-  NotesMode => \A who \in {"sec", "seg"} : LET o == outs[who] IN
+  NotesMode => \A who \in {"sec", "sec2", "seg"} : LET o == outs[who] IN
       \A i \in 1..Len(o) : /\ o[i].size >= NhdrSize
-                           /\ o[i].off = IF i = 1 THEN ext.secstart ELSE o[i - 1].off + o[i - 1].size
+                           /\ o[i].off = IF i = 1 THEN (IF who = "sec2" THEN ext.sec2start ELSE ext.secstart) ELSE o[i - 1].off + o[i - 1].size
 \* the descriptor bytes the walker hands out decode to the abstract descriptor they were made from
 DescRoundTrip ==
   Done /\ NotesMode => \A i \in 1..Len(notes) :
       LET k == DescKind(notes[i].name, notes[i].type, cf.core) IN
       /\ k = notes[i].dec.k
-      /\ DecodeDesc(k, outs.sec[i].desc, cf) = notes[i].dec.f
+      /\ DecodeDesc(k, SecOuts[i].desc, cf) = notes[i].dec.f
 \* only notes of the owner that defines the type codes of this kind of file are ever decoded; what nobody defines is opaque
 OnlyDefiningOwnerDecodes ==
   NotesMode => \A i \in 1..Len(notes) :
       LET n == notes[i]   k == DescKind(n.name, n.type, cf.core) IN
       /\ (k # "raw" => TypeFixed(n.name, cf.core) /\ StrictNames(n.name, n.type, cf.core) # {} /\ ~Opaque(n.name, n.type, cf.core))
       /\ (Opaque(n.name, n.type, cf.core) => n.dec = RawDec /\ StrictNames(n.name, n.type, cf.core) = {})
-      /\ (~TypeFixed(n.name, cf.core) /\ n.name # OwnerFreeBSD => Opaque(n.name, n.type, cf.core))
+      /\ (~TypeFixed(n.name, cf.core) /\ ~OwnedBy(n.name, OwnerFreeBSD) => Opaque(n.name, n.type, cf.core))
+\* the owner is the part of the name field before its first null - whatever else namesz covers -, sizes and offsets count from
+\* namesz, and the meaning of the note is that of the canonical field (owner + one null)
+OwnerUpToFirstNul ==
+  Done /\ NotesMode => \A i \in 1..Len(notes) :
+      LET n == notes[i]   o == SecOuts[i]   s == o.name   l == Len(o.name) IN
+      /\ o.hasname = (n.name # <<>>) /\ o.namesz = Len(n.name)
+      /\ (~o.hasname => s = <<>>)
+      /\ (o.hasname => /\ l < o.namesz /\ n.name[l + 1] = 0
+                       /\ \A j \in 1..l : s[j] # 0 /\ s[j] = n.name[j]
+                       /\ \A j \in (l + 1)..o.namesz : n.name[j] = 0              \* the writer's alphabet: nothing but nulls behind the owner
+                       /\ (NameSliced(n.name) = s) = (o.namesz = l + 1))
+      /\ o.size = NoteSize(o.namesz, o.descsz)
+      /\ (o.hasname => LET canon == s \o <<0>> IN
+                         /\ DescKind(n.name, n.type, cf.core) = DescKind(canon, n.type, cf.core)
+                         /\ TypeFixed(n.name, cf.core) = TypeFixed(canon, cf.core)
+                         /\ StrictNames(n.name, n.type, cf.core) = StrictNames(canon, n.type, cf.core)
+                         /\ Opaque(n.name, n.type, cf.core) = Opaque(canon, n.type, cf.core))
 StabsExact == Done /\ ~NotesMode => outs.sec = StabView(ext.secstart) /\ outs.secoff = ext.secend /\ Len(outs.sec) = Len(stabs)
 \* units tile the section from the first header on: each header's count reaches exactly to the next header (or the end of
 \* the section), so no header but a last one covers the rest of the section; the count of the encoded header is the derived one
@@ -705,7 +875,7 @@ UnitsTile ==
 \* by aligned file offsets coincides on descriptors that lie at a multiple of the alignment and differs on every other one
 PropsRelative ==
   Done /\ NotesMode => \A i \in 1..Len(notes) : notes[i].dec.k = "props" =>
-      LET o == outs.sec[i]   ps == notes[i].dec.f   A == PropAlign(cf.cls)   b == DescOff(o) IN
+      LET o == SecOuts[i]   ps == notes[i].dec.f   A == PropAlign(cf.cls)   b == DescOff(o) IN
       /\ PropWalk(o.desc, 0, cf.cls, cf.le) = ps
       /\ PropPos(ps, Len(ps) + 1, A, 0) = o.descsz
       /\ Read(cs, b, o.descsz) = o.desc
@@ -714,8 +884,8 @@ PropsRelative ==
 \* section header and program header designate the same file bytes, and those are the encoded extent
 ImageCarriesExtent ==
   phase = "sec" /\ w.pc = "hdr" /\ w.off = ext.secstart =>
-      /\ ext.segstart = ext.secstart /\ ext.segend = ext.secend
-      /\ Read(cs, ext.secstart, ext.secend - ext.secstart) = Extent(notes, cf, ext.tail)
+      /\ ext.segstart = ext.secstart /\ ext.segend = ExtEnd
+      /\ Read(cs, ext.secstart, ExtEnd - ext.secstart) = Extent(notes, cf, ext.tail)
       /\ (NotesMode => Read(cs, 16, 2) = Fix(N(cf.et), 2, cf.le) /\ cf.core = (cf.et = 4))       \* e_type (gABI: offset 16 in both classes)
       /\ \A i, j \in 1..Len(cs) : i < j => \/ Len(cs[i][2]) = 0 \/ Len(cs[j][2]) = 0
                                            \/ cs[i][1] + Len(cs[i][2]) * cs[i][3] <= cs[j][1]
@@ -740,10 +910,10 @@ WalkerProgress ==
                                     /\ (w.pc = "hdr" => w'.off = w.off + NhdrSize)]_vars
 \* termination, safety form: a walker that is not done can take a step (NoStall), and every walker step
 \* strictly decreases a natural-valued variant (WalkerVariant)
-NoStall == phase \in {"sec", "seg", "stab"} => ENABLED WalkStep
+NoStall == phase \in {"sec", "sec2", "seg", "stab"} => ENABLED WalkStep
 PcRank(pc) == CASE pc = "hdr" -> 0 [] pc = "yield" -> 1 [] pc = "desc" -> 2 [] pc = "name" -> 3 [] OTHER -> 0
-Rank == (CASE phase = "sec" -> 2 [] phase \in {"seg", "stab"} -> 1 [] OTHER -> 0) * 1048576
-        + (IF phase \in {"sec", "seg", "stab"} THEN (w.end - w.off) + PcRank(w.pc) ELSE 0)
+Rank == (CASE phase = "sec" -> 3 [] phase = "sec2" -> 2 [] phase \in {"seg", "stab"} -> 1 [] OTHER -> 0) * 1048576
+        + (IF phase \in {"sec", "sec2", "seg", "stab"} THEN (w.end - w.off) + PcRank(w.pc) ELSE 0)
 WalkerVariant == [][WalkStep => Rank' < Rank /\ Rank' >= 0]_vars
 \* termination, liveness form (checked in the small configuration Notes_live)
 Termination == (phase # "write") ~> Done
